@@ -893,3 +893,21 @@ package main
 // /verif/known_findings.json, with the history replayed on the real code); a writer that is not in that list is a
 // new violation.
 //@ callers (*RuntimeState).SaveUserProfile only none  #C16.profile-write-back-in-the-critical-section-of-its-load @C16
+
+// ---- C02 / C07: the normalised user name -----------------------------------------------------------------------
+// lower-cased unless normalisation is disabled, then stripped by the configured filter expression (if any)
+//@ func (*RuntimeState).reprocessUsername
+//@   ensures state.Config.Base.DisableUsernameNormalization && state.oktaUsernameFilterRE == nil ==> ret0 == username   #C02.user-name-kept-when-normalisation-is-off @C02,C07
+//@   ensures !state.Config.Base.DisableUsernameNormalization && state.oktaUsernameFilterRE == nil ==> ret0 == strLower(username)   #C02.user-name-lower-cased @C02,C07
+//@   ensures state.Config.Base.DisableUsernameNormalization && state.oktaUsernameFilterRE != nil ==> ret0 == reReplacedAll(state.oktaUsernameFilterRE, username)   #C02.user-name-filtered @C02,C07
+//@   ensures !state.Config.Base.DisableUsernameNormalization && state.oktaUsernameFilterRE != nil ==> ret0 == reReplacedAll(state.oktaUsernameFilterRE, strLower(username))   #C02.user-name-lower-cased-and-filtered @C02,C07
+
+// ---- C01 / C05: the CLI hand-over turns a session into a certificate-capable one only if that session already
+// satisfies the level the web UI requires (the mask handed to checkAuth is the one computed from the configuration)
+//@ ghost var ghostWebUILevel int
+//@ ghost var ghostWebUILevelKnown bool
+//@ func (*RuntimeState).SendAuthDocumentHandler
+//@   handler sendAuthDocumentPath
+//@   atcall (*RuntimeState).getRequiredWebUIAuthLevel sets ghostWebUILevel int (s2 *RuntimeState, lvl int) :: lvl
+//@   atcall (*RuntimeState).getRequiredWebUIAuthLevel sets ghostWebUILevelKnown bool (s2 *RuntimeState, lvl int) :: true
+//@   atcall (*RuntimeState).checkAuth requires (s2 *RuntimeState, w2 http.ResponseWriter, r2 *http.Request, requiredAuthType int) :: ghostWebUILevelKnown && requiredAuthType == ghostWebUILevel   #C01.cli-hand-over-needs-a-web-ui-level-session @C01,C05
